@@ -39,12 +39,18 @@ def parseEdges : List String → Option (Option (List Nat))
   | ["-"] => some (some [])
   | ws => (ws.mapM String.toNat?).map (fun es => some (es.map wrap32))
 
-def packet (tag : String) (t : Tracker) (ack : Nat) (sack : SackOpt) : Tracker × String :=
-  let (t', thrown) := processPacket t (wrap32 ack) sack
-  if thrown then (t', s!"throw malformed_option {showState t'}")
-  else (t', s!"{tag} {showState t'} grid={showGrid t'}")
+/-- model state: the tracker, and whether it is the one owned by a `Flow` (`finit`): `Flow::process_packet` does not
+    let the `malformed_option` of an undecodable SACK option escape (the segment still has to be processed) -/
+structure MState where
+  t : Tracker := Tracker.default
+  inFlow : Bool := false
 
-def step (t : Tracker) (line : String) : Tracker × String :=
+def packet (tag : String) (st : MState) (ack : Nat) (sack : SackOpt) : MState × String :=
+  let (t', thrown) := processPacket st.t (wrap32 ack) sack
+  if thrown && !st.inFlow then ({ st with t := t' }, s!"throw malformed_option {showState t'}")
+  else ({ st with t := t' }, s!"{tag} {showState t'} grid={showGrid t'}")
+
+def stepT (t : Tracker) (line : String) : Tracker × String :=
   match words line with
   | "init" :: a :: s :: _ => match a.toNat? with
     | some k => let t' := Tracker.init (wrap32 k) (s == "1"); (t', s!"init {showState t'}")
@@ -57,15 +63,16 @@ def step (t : Tracker) (line : String) : Tracker × String :=
   | "usesack" :: _ => let t' := { t with useSack := true }; (t', s!"usesack {showState t'}")
   | "pkt" :: a :: es => match a.toNat?, parseEdges es with
     | some k, some e => if es.length > 60 then (t, "bad-op") else
-      packet "pkt" t k (match e with | none => .absent | some l => decodeSack (encodeEdges l))
+      let r := packet "pkt" ⟨t, false⟩ k (match e with | none => .absent | some l => decodeSack (encodeEdges l)); (r.1.t, r.2)
     | _, _ => (t, "bad-op")
   | "pktw" :: a :: es => match a.toNat?, parseEdges es with
     | some k, some e => if es.length > 8 || es == ["-"] then (t, "bad-op") else
-      packet "pktw" t k (match e with | none => .absent | some l => decodeSack (encodeEdges l))
+      let r := packet "pktw" ⟨t, false⟩ k (match e with | none => .absent | some l => decodeSack (encodeEdges l)); (r.1.t, r.2)
     | _, _ => (t, "bad-op")
   | "pktn" :: _ => (t, s!"pktn {showState t} grid={showGrid t}")
   | "opt" :: a :: h :: _ => match a.toNat?, parseHex h with
-    | some k, some d => if d.length > 255 then (t, "bad-op") else packet "opt" t k (decodeSack d)
+    | some k, some d => if d.length > 255 then (t, "bad-op") else
+      let r := packet "opt" ⟨t, false⟩ k (decodeSack d); (r.1.t, r.2)
     | _, _ => (t, "bad-op")
   | "q" :: s :: n :: _ => match s.toNat?, n.toNat? with
     | some s, some n =>
@@ -73,7 +80,19 @@ def step (t : Tracker) (line : String) : Tracker × String :=
     | _, _ => (t, "bad-op")
   | _ => (t, "bad-op")
 
-def initModel : Tracker := Tracker.default
+def step (st : MState) (line : String) : MState × String :=
+  match words line with
+  | "opt" :: a :: h :: _ =>
+    -- the only operation whose outcome depends on who owns the tracker
+    match a.toNat?, parseHex h with
+    | some k, some d => if d.length > 255 then (st, "bad-op") else packet "opt" st k (decodeSack d)
+    | _, _ => (st, "bad-op")
+  | w :: _ =>
+    let r := stepT st.t line
+    ({ t := r.1, inFlow := if w == "finit" then true else if w == "init" || w == "new" then false else st.inFlow }, r.2)
+  | [] => (st, "bad-op")
+
+def initModel : MState := {}
 
 /-! ### oracle -/
 open Tins.Ack.Spec
